@@ -9,9 +9,15 @@
                the per-probe matrices (or written although a probe lacks it / missing although all have it)
           25 = C12_index_tables: pc_feature_ind not shifted by coff_k or template_feature_ind not by toff_k
           26 = C12_params: sample rate / summed n_channels_dat / dat_path = []
+          27 = C12_spike_template_rows / C12_spike_template_tables (cross-property link with C11, Link.v): for merged
+               spike i, coming from probe k with original template t, row (merged spike_templates[i]) of the merged
+               templates.npy is not template t of probe k on probe k's channel block, or that row of the merged
+               template_feature_ind.npy is not probe k's row t renumbered by the template offset of probe k
           3  = input outside the stated regime (harness bug) *)
 From Coq Require Import ZArith List Bool Arith.
 From PV Require Export Base.Tok Base.NpSearch C12.Model C12.Spec.
+From PV Require Import C12.Link.
+From PV Require C11.Model C11.Spec C11.Proofs.
 Import ListNotations.
 Open Scope Z_scope.
 
@@ -23,10 +29,18 @@ Record obsrec := mkobs {
   o_tmpl : option (list (list (list tok)));
   o_pc : option (list (list Z)); o_tf : option (list (list Z));
   o_wm : option (list (list tok)); o_wmi : option (list (list tok)); o_sim : option (list (list tok));
-  o_crashed : list Z                    (* clause codes of the Merger methods that raised *)
+  o_crashed : list Z;                   (* clause codes of the Merger methods that raised *)
+  o_stimes : option (list Z);           (* merged spike_times.npy *)
+  o_st : option (list Z)                (* merged spike_templates.npy *)
 }.
 
-Inductive input := InMerge (unit : Z) (ps : list (probe tok tok)).
+(* the spike side of a probe directory, as PV.C11.Model reads it: spike times, spike templates (= spike clusters,
+   amplitudes 1) and the number of rows of templates.npy *)
+Definition sprobe := C11.Model.probe Z Z Z.
+Definition mksp (times tmpl : list Z) (ntmpl : Z) : sprobe :=
+  C11.Model.mkprobe times (map (fun _ => 1) times) tmpl tmpl ntmpl [].
+
+Inductive input := InMerge (unit : Z) (ps : list (probe tok tok)) (sps : list sprobe).
 Inductive observed := ObsMerged (o : obsrec) | ObsCrash.
 Record case := { cid : Z; cin : input; cobs : observed }.
 
@@ -82,6 +96,18 @@ Definition regime (unit : Z) (ps : list (probe tok tok)) : bool :=
       forallb (probe_ok ns (mcols (p_pc p0)) (mcols (p_tf p0)) (pr_rate (p_par p0))) ps
   end.
 
+(* C11's well-formedness, and SameDirs: the spike side describes the same directories *)
+Definition sprobe_ok (pp : probe tok tok * sprobe) : bool :=
+  let sp := snd pp in
+  let n := length (C11.Model.p_times sp) in
+  Nat.leb 1 n && Nat.eqb (length (C11.Model.p_amps sp)) n && Nat.eqb (length (C11.Model.p_tmpl sp)) n &&
+  Nat.eqb (length (C11.Model.p_clu sp)) n &&
+  (C11.Model.p_ntmpl sp =? Z.of_nat (length (p_tmpl (fst pp)))) &&
+  forallb (fun c => (0 <=? c) && (c <? C11.Model.p_ntmpl sp)) (C11.Model.p_tmpl sp) &&
+  forallb (fun c => 0 <=? c) (C11.Model.p_clu sp).
+Definition spikes_regime (ps : list (probe tok tok)) (sps : list sprobe) : bool :=
+  Nat.eqb (length sps) (length ps) && forallb sprobe_ok (combine ps sps).
+
 Definition misc_ok (ins : list (option (list (list tok)))) (o : option (list (list tok))) : bool :=
   match all_some ins, o with
   | Some Ms, Some M => block_diag_b tzero tok_eqb Ms M
@@ -93,13 +119,13 @@ Definition par_eqb (a b : params tok) : bool :=
   tok_eqb (pr_rate a) (pr_rate b) && (pr_ncd a =? pr_ncd b) && (pr_offset a =? pr_offset b).
 
 Definition check (c : case) : list Z :=
-  match cin c with InMerge unit ps =>
-  if negb (regime unit ps) then [3] else
-  match merge_side tzero unit ps with
-  | None => [3]
-  | Some m =>
+  match cin c with InMerge unit ps sps =>
+  if negb (regime unit ps && spikes_regime ps sps) then [3] else
+  match merge_side tzero unit ps, C11.Model.merge sps with
+  | None, _ | _, None => [3]
+  | Some m, Some sm =>
     match cobs c with
-    | ObsCrash => [1; 21; 22; 23; 24; 25; 26]
+    | ObsCrash => [1; 21; 22; 23; 24; 25; 26; 27]
     | ObsMerged o =>
       let cms := map p_cm ps in
       let lens := map (@length Z) cms in
@@ -114,6 +140,8 @@ Definition check (c : case) : list Z :=
         opt_eqb zll_eqb (Some (m_pc m)) (o_pc o) && opt_eqb zll_eqb (Some (m_tf m)) (o_tf o) &&
         opt_eqb tll_eqb2 (m_wm m) (o_wm o) && opt_eqb tll_eqb2 (m_wmi m) (o_wmi o) &&
         opt_eqb tll_eqb2 (m_sim m) (o_sim o) &&
+        opt_eqb zlist_eqb (Some (C11.Model.m_times sm)) (o_stimes o) &&
+        opt_eqb zlist_eqb (Some (C11.Model.m_tmpl sm)) (o_st o) &&
         match o_crashed o with [] => true | _ => false end in
       let g21 := opt_chk (chan_labels_b cms) (o_probe o) && opt_chk (chan_map_b cms) (o_map o) &&
                  opt_chk (pos_blocks_b (map p_pos ps)) opos in
@@ -128,9 +156,19 @@ Definition check (c : case) : list Z :=
                                       (pr_ncd q =? zsum (map (fun p => pr_ncd (p_par p)) ps))
                  | _, _ => false
                  end in
+      (* the input spikes in (time, probe, index) order = the provenance of the merged spikes (C11_sorted_stable);
+         judged on the observed merged spike_times / spike_templates / templates / template_feature_ind only *)
+      let M := C11.Proofs.sorted_tagged (C11.Spec.tagged_concat sps) in
+      let g27 := opt_chk (zlist_eqb (map (@C11.Spec.t_time Z) M)) (o_stimes o) &&
+                 match o_st o with
+                 | Some st => opt_chk (spike_rows_b tzero tok_eqb (map p_tmpl ps) M st) (o_tmpl o) &&
+                              opt_chk (spike_table_b toff (map p_tf ps) M st) (o_tf o)
+                 | None => false
+                 end in
       flag 1 same ++ flag 21 g21 ++ flag 22 g22 ++ flag 23 g23 ++ flag 24 g24 ++ flag 25 g25 ++ flag 26 g26 ++
+      flag 27 g27 ++
       filter (fun code => negb (existsb (Z.eqb code)
-                (flag 21 g21 ++ flag 22 g22 ++ flag 23 g23 ++ flag 24 g24 ++ flag 25 g25 ++ flag 26 g26)))
+                (flag 21 g21 ++ flag 22 g22 ++ flag 23 g23 ++ flag 24 g24 ++ flag 25 g25 ++ flag 26 g26 ++ flag 27 g27)))
              (o_crashed o)
     end
   end end.
